@@ -386,7 +386,7 @@ def run(ctx):
     TRC = ctx.guard("regenerate", gen, ctx)
     ok = ctx.lean_build(["HitenModel.Props.C07"])
     if ok:
-        ctx.lean_audit(["HitenModel.Props.C07"], ["HitenModel.Props.C07", "HitenModel.Gen.C07", "HitenModel.Lemmas.Legendre", "HitenModel.Core.Legendre"])
+        ctx.lean_audit(["HitenModel.Props.C07"], ["HitenModel.Props.C07", "HitenModel.Gen.C07", "HitenModel.Lemmas.Legendre", "HitenModel.Lemmas.LegendreUnique", "HitenModel.Lemmas.LegendreLink", "HitenModel.Core.Legendre"])
         if ctx.thorough():
             ctx.leanchecker(["HitenModel.Props.C07"])
     if TRC is not None:
